@@ -1,7 +1,7 @@
 (* C15: the structure theorems for the converter itself (plan text in, joint actions out). *)
 From Coq Require Import List Ascii String Bool Arith Lia Permutation PrimFloat.
 From Verif Require Import Base.Result Base.Str Model.Domain Model.Exec Spec.Pddl Spec.JointPlan Model.PlanConverter
-  Proofs.C15_Loop Proofs.C15_Views Proofs.C15_Effect Proofs.C15_Sound.
+  Proofs.C15_Loop Proofs.C15_Views Proofs.C15_Effect Proofs.C15_Sound Proofs.C15_Scan.
 Import ListNotations.
 Open Scope string_scope.
 Open Scope list_scope.
@@ -64,3 +64,33 @@ Proof.
   eapply outer_sound; [apply (wf_of_extract agents t pa He Hn)|exact Ht|apply seqv_refl|exact Hs|exact H].
 Qed.
 
+
+(* ---------- from the plan FILE to the joint actions ---------- *)
+Lemma expected_calls agents ls pa :
+  mapM (expected_pcall agents) ls = Ok pa -> map fst pa = map line_call ls.
+Proof.
+  revert pa. induction ls as [|l ls IH]; intros pa H; cbn [mapM] in H; [inversion H; reflexivity|].
+  unfold expected_pcall at 1 in H.
+  destruct (find (fun p => str_in p agents) (snd (line_call l))) as [ag|]; cbn [bind] in H; [|discriminate].
+  destruct (mapM (expected_pcall agents) ls) as [ps|]; cbn [bind] in H; [|discriminate].
+  inversion H; subst pa. cbn [map fst]. rewrite (IH ps eq_refl). reflexivity.
+Qed.
+
+Lemma convert_file_structure_lemma dom eps agents flag test init ls final js :
+  Forall plan_line_ok ls -> Forall (fun c => c <> LP) final ->
+  Forall (fun l => is_nop (line_call l) = false) ls ->
+  convert_plan dom eps agents flag test init (render_plan ls final) = Ok js ->
+  structure_ok agents (map line_call ls) js.
+Proof.
+  intros Hok Hf Hn H.
+  destruct (extract_plan_actions agents (render_plan ls final)) as [pa|k] eqn:Ee.
+  - pose proof Ee as Ee'. rewrite (extract_render agents ls final Hok Hf) in Ee'.
+    rewrite <- (expected_calls agents ls pa Ee').
+    apply (convert_structure_lemma dom eps agents flag test init (render_plan ls final) pa js Ee); [|exact H].
+    unfold no_nop_action. apply Forall_forall. intros p Hp.
+    assert (Hin : In (fst p) (map line_call ls)).
+    { rewrite <- (expected_calls agents ls pa Ee'). apply in_map. exact Hp. }
+    apply in_map_iff in Hin. destruct Hin as (l & El & Hl). rewrite <- El.
+    rewrite Forall_forall in Hn. apply Hn. exact Hl.
+  - unfold convert_plan in H. rewrite Ee in H. discriminate.
+Qed.
